@@ -23,7 +23,7 @@ FAILING = {
     'F08-1': {(f, d) for f in ('calc_velo_and_disp_from_accel_arr', 'AccSignal.velocity/displacement', 'pga/pgv/pgd') for d in ('int8x40', 'uint8x40')},
     'F13-1': {(f, d) for f in ('determine_peaks_only_delta_series', 'determine_pseudo_cyclic_peak_only_series')
               for d in ('int8x40', 'int16x200', 'int32x1e5', 'int64x3e9')},
-    'F03-4': {('absmax', 'uint8'), ('absmax', 'uint16'), ('absmax', 'int8-with-minimum'), ('pseudo_response_spectra', 'uint8'), ('pseudo_response_spectra', 'int8-with-minimum')},
+    'F03-4': {(f, d) for f in ('absmax', 'pseudo_response_spectra') for d in ('uint8', 'uint16', 'int8-with-minimum')},
 }
 CLAUSE = "%s integer records of any width give the result of the same numbers held as float64 (%s)"
 
